@@ -98,7 +98,7 @@ def cases(tier, seed):
     for i in range(nstress):
         ff = common.FFS[i % 6]
         out.append({"kind": "run", "w": "synth", "seed": seed * 910001 + i, "ff": ff, "opts": opts(rng, {"ff": ff}),
-                    "p": {"crowd_prob": 0.6, "crowd_heavy_prob": 1.0, "carbon_obstacle_prob": 0.5, "minlen": 5, "maxlen": 9, "na": False, "waters": [0],
+                    "p": {"crowd_prob": 0.6, "crowd_heavy_prob": 1.0, "carbon_obstacle_prob": 0.5, "shuffle_atoms_prob": 0.3, "minlen": 5, "maxlen": 9, "na": False, "waters": [0],
                           "hydrogens": ["none", "none", "some"], "variant_prob": 0.05,
                           "pool": ["ARG", "LYS", "GLU", "GLN", "MET", "ILE", "LEU", "TRP", "PHE", "TYR", "HIS", "ASN",
                                    "ASP", "THR", "VAL", "SER", "PRO", "PRO"]}})
